@@ -104,20 +104,27 @@ type mcMemDriver struct {
 	LastValidateErr         string
 }
 
+// mcMemNet9 is a 9-node generated genesis: removals are possible from the start
+// (more than the minimum of 7 accepted members).
+var mcMemNet9 = fixc.NewNet(9, "net9")
+
 var (
-	mcMemGenesisOnce sync.Once
-	mcMemGenesisTxs  []*common.VersionedTransaction
+	mcMemGenesisMu  sync.Mutex
+	mcMemGenesisTxs = map[*fixc.Net][]*common.VersionedTransaction{}
 )
 
 func mcMemGenesis(net *fixc.Net) []*common.VersionedTransaction {
-	mcMemGenesisOnce.Do(func() {
-		_, _, txs, err := net.Genesis.BuildSnapshots()
-		if err != nil {
-			panic(err)
-		}
-		mcMemGenesisTxs = txs
-	})
-	return mcMemGenesisTxs
+	mcMemGenesisMu.Lock()
+	defer mcMemGenesisMu.Unlock()
+	if txs, ok := mcMemGenesisTxs[net]; ok {
+		return txs
+	}
+	_, _, txs, err := net.Genesis.BuildSnapshots()
+	if err != nil {
+		panic(err)
+	}
+	mcMemGenesisTxs[net] = txs
+	return txs
 }
 
 // mcMemScratch returns a fresh directory for an on-disk store.
@@ -156,12 +163,15 @@ func mcMemNewNode(net *fixc.Net, self int, dir string) (*mcNode, error) {
 
 // newMCMemDriver builds a fresh real node (signer index 0) over the generated
 // 7-node genesis. dir=="" uses in-memory Badger.
-func newMCMemDriver(dir string) (*mcMemDriver, error) {
-	m, err := mcMemNewNode(mcNet7, 0, dir)
+func newMCMemDriver(dir string) (*mcMemDriver, error) { return newMCMemDriverNet(mcNet7, dir) }
+
+// newMCMemDriverNet is newMCMemDriver over another generated genesis.
+func newMCMemDriverNet(net *fixc.Net, dir string) (*mcMemDriver, error) {
+	m, err := mcMemNewNode(net, 0, dir)
 	if err != nil {
 		return nil, err
 	}
-	d := &mcMemDriver{M: m, Net: mcNet7, Dir: dir, Funder: fixc.Addr("mem-funder"), Chain: 1, pledgeTx: map[int]*common.VersionedTransaction{}}
+	d := &mcMemDriver{M: m, Net: net, Dir: dir, Funder: fixc.Addr("mem-funder"), Chain: 1, pledgeTx: map[int]*common.VersionedTransaction{}}
 	gtxs := mcMemGenesis(d.Net)
 	for i := range d.Net.Signers {
 		d.Idents = append(d.Idents, mcMemIdent{Signer: d.Net.Signers[i], Payee: d.Net.Payees[i], Id: d.Net.NodeIds[i], Genesis: true})
@@ -491,16 +501,18 @@ func (d *mcMemDriver) Priv(pub crypto.Key) *crypto.Key { return mcMemPriv(pub) }
 var mcMemPrivCache sync.Map
 
 // mcMemPriv finds the private spend key of a genesis signer or of a signer
-// pledged by a driver (deterministic labels mem-signer-7..15).
+// pledged by a driver / a synthetic node (deterministic labels mem-signer-7..30).
 func mcMemPriv(pub crypto.Key) *crypto.Key {
 	if v, ok := mcMemPrivCache.Load(pub); ok {
 		return v.(*crypto.Key)
 	}
-	for i := range mcNet7.Signers {
-		k := mcNet7.Signers[i].PrivateSpendKey
-		mcMemPrivCache.Store(mcNet7.Signers[i].PublicSpendKey, &k)
+	for _, net := range []*fixc.Net{mcNet7, mcMemNet9} {
+		for i := range net.Signers {
+			k := net.Signers[i].PrivateSpendKey
+			mcMemPrivCache.Store(net.Signers[i].PublicSpendKey, &k)
+		}
 	}
-	for n := len(mcNet7.Signers); n < len(mcNet7.Signers)+9; n++ {
+	for n := len(mcNet7.Signers); n < len(mcNet7.Signers)+24; n++ {
 		a := fixc.NodeAddr(fmt.Sprintf("mem-signer-%d", n))
 		k := a.PrivateSpendKey
 		mcMemPrivCache.Store(a.PublicSpendKey, &k)
